@@ -220,6 +220,26 @@ Proof.
   unfold is_iat. now rewrite E.
 Qed.
 
+Lemma sumZ_nonneg l : Forall (fun z => 0 <= z) l -> 0 <= sumZ l.
+Proof. induction 1 as [|z l Hz _ IH]; cbn [sumZ fold_right]; [lia|]. unfold sumZ in IH. lia. Qed.
+
+(* with non-negative terms, the sum over one batch is at most the sum over the file *)
+Lemma sum_member_le (g : entry -> Z) l b :
+  (forall p, In p (ids l) -> 0 <= g (snd p)) -> In b l -> sumZ (map g (b_entries b)) <= sum_ids g l.
+Proof.
+  induction l as [|x l IH]; intros Hg Hb; [destruct Hb|]. rewrite sum_ids_cons.
+  assert (Hx : 0 <= sumZ (map g (b_entries x))).
+  { apply sumZ_nonneg, Forall_forall. intros z Hz. apply in_map_iff in Hz as (e & <- & He).
+    apply (Hg (b_sig x, e)). apply in_ids; [now left|exact He]. }
+  assert (Hl : 0 <= sum_ids g l).
+  { unfold sum_ids. apply sumZ_nonneg, Forall_forall. intros z Hz. apply in_map_iff in Hz as (q & <- & Hq).
+    apply Hg. unfold ids in *. cbn [flat_map]. apply in_app_iff. now right. }
+  destruct Hb as [<-|Hb]; [lia|].
+  assert (IH' : sumZ (map g (b_entries b)) <= sum_ids g l).
+  { apply IH; [|exact Hb]. intros q Hq. apply Hg. unfold ids in *. cbn [flat_map]. apply in_app_iff. now right. }
+  lia.
+Qed.
+
 Section Finish.
 Variables (A : Arith.tables) (T : Offsets.otable) (TT : BuildIAT.ttable).
 Hypothesis HA : agree A T.
@@ -252,7 +272,8 @@ Qed.
 (* a standard (non-ADV) consolidated batch whose Create succeeds as C05's build says *)
 Definition created (x : batch) : Prop :=
   b_kind x = Flatten.KStd /\ hd_adv (hd (b_sig x)) = false /\
-  exists b', create_std A T hd sp x = Some b' /\ ctl_ok T b' /\ Offsets.b_entries b' = map toe (b_entries x).
+  exists b', create_std A T hd sp x = Some b' /\ ctl_ok T b' /\ Offsets.b_entries b' = map toe (b_entries x)
+             /\ Arith.validate_batch A (off_skeleton hd sp x b') = Arith.ROk /\ is_category_std false x = true.
 
 (* AddToFile over such batches: nothing is skipped, the controls sum up to the sums over the entries *)
 Lemma add_all_created l : Forall created l ->
@@ -262,7 +283,7 @@ Lemma add_all_created l : Forall created l ->
     /\ zsum (fun s => Offsets.c_credit (sb_ctl s)) ss = sum_ids cr_e l
     /\ zsum (fun s => Offsets.c_debit (sb_ctl s)) ss = sum_ids db_e l.
 Proof.
-  induction 1 as [|x l (Hk & Hadv & b' & Hc & (K1 & K2 & K3 & K4 & _) & He) _ IH].
+  induction 1 as [|x l (Hk & Hadv & b' & Hc & (K1 & K2 & K3 & K4 & _) & He & _) _ IH].
   - exists []. cbn. repeat split; reflexivity.
   - destruct IH as (ss & Hss & Hlen & Hna & S1 & S2 & S3).
     exists (SStd (std_hdr0 b') :: ss). cbn [add_all]. rewrite Hss, Hk, Hadv, Hc.
@@ -343,22 +364,23 @@ Proof.
   apply run_P. intros m b Hm _ _. now rewrite consume_kind.
 Qed.
 
-Theorem flatten_succeeds inf inp r :
-  std_file inp -> inp <> [] -> i_hdr_ok inf = true ->
+(* every consolidated batch, as AddToFile sees it: Create — Batch.build as modelled by C05, then
+   Validate as modelled by C03 (Arith) with isCategory — succeeds, and its entries are strictly
+   ascending by trace number *)
+Lemma consolidated_created inf inp order all :
+  std_file inp ->
   kinds_consistent inp -> Forall traces_nodup inp ->
   Forall (fun b => Arith.validate_batch A (fb b) = Arith.ROk) inp ->
   Forall hdr_pair (ids inp) ->
-  i_count inf = sum_ids cnt_e inp -> i_debit inf = sum_ids (db_e T sp) inp -> i_credit inf = sum_ids (cr_e T sp) inp ->
+  i_debit inf = sum_ids (db_e T sp) inp -> i_credit inf = sum_ids (cr_e T sp) inp ->
   cat_rule inp ->
-  (forall out, flatten_spec inp out -> Forall fits out) ->
-  flatten_full_spec A T TT hd sp ip ap inf inp r ->
-  (fst r = FOk \/ (fst r = FErrValidate /\ file_ctl_ok A (snd r) = false))
-  /\ af_iat (snd r) = []
-  /\ Offsets.fc_count (af_ctl (snd r)) = i_count inf
-  /\ Offsets.fc_debit (af_ctl (snd r)) = i_debit inf
-  /\ Offsets.fc_credit (af_ctl (snd r)) = i_credit inf.
+  i_debit inf <= Arith.t_file_limit A -> i_credit inf <= Arith.t_file_limit A ->
+  Arith.t_file_limit A <= Arith.t_batch_limit A ->
+  admissible inp order -> Permutation all (all_batches (run order)) ->
+  Forall (fun x => created A T hd sp x /\ StronglySorted trace_lt (b_entries x)) (pre all)
+  /\ Permutation (ids all) (ids inp).
 Proof.
-  intros Hstd Hne Hh Hk Hnd Hv Hhp E1 E2 E3 Hcat Hfit (order & all & Hadm & Hall & ->). unfold std_file in Hstd.
+  intros Hstd Hk Hnd Hv Hhp E2 E3 Hcat L1 L2 L3 Hadm Hall. unfold std_file in Hstd.
   assert (Hs : flatten_spec inp (finalize all)) by (exists order, all; split; [exact Hadm|split; [exact Hall|reflexivity]]).
   destruct Hadm as (Hperm & Hsorted).
   assert (Hne' : Forall nonempty inp) by (eapply Forall_impl; [|exact Hstd]; intros x (_ & H & _); now left).
@@ -369,11 +391,25 @@ Proof.
   pose proof (flatten_category inp _ Hk (cat_rule_uniform inp Hcat) Hs) as Hck.
   assert (Hcok : forallb category_ok (finalize all) = true).
   { unfold checked in Hck. destruct (forallb category_ok (finalize all)); [reflexivity|discriminate]. }
-  specialize (Hfit _ Hs).
+  (* the consolidated totals fit the batch control: they are part of the file totals *)
+  assert (Hfit : Forall fits (finalize all)).
+  { assert (Hamt : forall p, In p (ids (finalize all)) -> 0 <= e_amount (snd p)).
+    { intros p Hp. rewrite Forall_forall in Hpok. destruct (Hpok p Hp) as (_ & _ & Hst & _).
+      apply entry_static_spec in Hst as [Hst _]. apply validate_entry_facts in Hst as (_ & _ & Ha). now destruct (Ha eq_refl). }
+    apply Forall_forall. intros y Hy. unfold fits. rewrite <- (full_debit A T HA sp), <- (full_credit A T HA sp), debits_sum, credits_sum. split.
+    - eapply Z.le_trans; [apply (sum_member_le (db_e T sp) (finalize all) y); [|exact Hy]|].
+      + intros p Hp. specialize (Hamt p Hp). unfold db_e, Offsets.db_amt, to_off_entry. cbn [Offsets.e_code Offsets.e_amount].
+        destruct (Offsets.mem _ (Offsets.t_credit T)); [lia|]. destruct (Offsets.mem _ (Offsets.t_debit T)); lia.
+      + rewrite (sum_ids_perm _ _ _ P1), <- E2. lia.
+    - eapply Z.le_trans; [apply (sum_member_le (cr_e T sp) (finalize all) y); [|exact Hy]|].
+      + intros p Hp. specialize (Hamt p Hp). unfold cr_e, Offsets.cr_amt, to_off_entry. cbn [Offsets.e_code Offsets.e_amount].
+        destruct (Offsets.mem _ (Offsets.t_credit T)); lia.
+      + rewrite (sum_ids_perm _ _ _ P1), <- E3. lia. }
   (* permutation of the pairs of [all] and of the input *)
   assert (Pall : Permutation (ids all) (ids inp)).
   { destruct (run_ids order (kinds_consistent_perm _ _ (Permutation_sym Hperm) Hk)) as (R1 & _).
     rewrite (ids_perm _ _ Hall), R1. now apply ids_perm. }
+  split; [|exact Pall].
   (* kinds *)
   assert (Hkind : Forall (fun b => b_kind b = Flatten.KStd) (pre all)).
   { assert (Ho : Forall (fun b => b_kind b = Flatten.KStd) order).
@@ -382,33 +418,61 @@ Proof.
     pose proof (run_kind order Ho) as Hr. rewrite Forall_forall in Hr.
     apply Forall_forall. intros x Hx. unfold pre in Hx. apply in_map_iff in Hx as (y & <- & Hy). cbn [sort_entries b_kind].
     apply Hr. eapply Permutation_in; [exact Hall|]. eapply Permutation_in; [apply sort_by_perm|exact Hy]. }
-  (* every batch handed to AddToFile passes Create *)
-  assert (Hcr : Forall (created A T hd sp) (pre all)).
-  { apply Forall_forall. intros x Hx. destruct (pre_in_out all x Hx) as (y & Hy & Ky & Sy & Ey & Ay).
-    rewrite Forall_forall in Hw, Hpok, Hhdr, Hfit, Hkind. destruct (Hw y Hy) as (Hso & Hnon).
-    assert (Hyadv : b_adv y = []).
-    { destruct (b_adv y) as [|a q] eqn:E; [reflexivity|]. exfalso.
-      destruct (flatten_conservation inp _ Hk Hs) as (_ & P2).
-      assert (Hin : In (b_sig y, a) (adv_ids (finalize all))).
-      { unfold adv_ids. apply in_flat_map. exists y. split; [exact Hy|]. unfold adv_ids_of. rewrite E. now left. }
-      eapply Permutation_in in Hin; [|exact P2]. unfold adv_ids in Hin. apply in_flat_map in Hin as (z & Hz & Hin).
-      rewrite Forall_forall in Hstd. destruct (Hstd z Hz) as (_ & _ & Za). unfold adv_ids_of in Hin. now rewrite Za in Hin. }
-    assert (Hxne : b_entries x <> []) by (rewrite <- Ey; destruct Hnon as [H|H]; [exact H|congruence]).
-    assert (Hidx : forall e, In e (b_entries x) -> In (b_sig x, e) (ids (finalize all))).
-    { intros e He. rewrite <- Sy. apply in_ids; [exact Hy|now rewrite Ey]. }
-    destruct (b_entries x) as [|e0 es0] eqn:Ex; [congruence|]. rewrite <- Ex in *.
-    destruct (Hhdr _ (Hidx e0 ltac:(rewrite Ex; now left))) as (Hna & Hok & _). cbn [fst] in Hna, Hok.
-    split; [now apply Hkind|]. split; [exact Hna|].
-    destruct (create_std_spec A T HA hd sp x Hok Hxne) as (b' & Hc & He & Hctl & _).
-    - unfold traces_prefixed. apply Forall_forall. intros e He. now destruct (Hhdr _ (Hidx e He)) as (_ & _ & Ht).
-    - destruct (Hfit y Hy) as (F1 & F2). apply pairs_valid.
-      + apply Forall_forall. intros p Hp. unfold ids_of in Hp. apply in_map_iff in Hp as (e & <- & He). now apply Hpok, Hidx.
-      + exact Hxne.
-      + rewrite <- Ey. exact Hso.
-      + rewrite <- Ey. exact F1.
-      + rewrite <- Ey. exact F2.
-    - rewrite forallb_forall in Hcok. specialize (Hcok y Hy). unfold category_ok in *. now rewrite <- Ey, <- Ay.
-    - exists b'. split; [exact Hc|split; [exact Hctl|exact He]]. }
+  apply Forall_forall. intros x Hx. destruct (pre_in_out all x Hx) as (y & Hy & Ky & Sy & Ey & Ay).
+  rewrite Forall_forall in Hw, Hpok, Hhdr, Hfit, Hkind. destruct (Hw y Hy) as (Hso & Hnon).
+  assert (Hyadv : b_adv y = []).
+  { destruct (b_adv y) as [|a q] eqn:E; [reflexivity|]. exfalso.
+    destruct (flatten_conservation inp _ Hk Hs) as (_ & P2).
+    assert (Hin : In (b_sig y, a) (adv_ids (finalize all))).
+    { unfold adv_ids. apply in_flat_map. exists y. split; [exact Hy|]. unfold adv_ids_of. rewrite E. now left. }
+    eapply Permutation_in in Hin; [|exact P2]. unfold adv_ids in Hin. apply in_flat_map in Hin as (z & Hz & Hin).
+    rewrite Forall_forall in Hstd. destruct (Hstd z Hz) as (_ & _ & Za). unfold adv_ids_of in Hin. now rewrite Za in Hin. }
+  assert (Hxne : b_entries x <> []) by (rewrite <- Ey; destruct Hnon as [H|H]; [exact H|congruence]).
+  assert (Hidx : forall e, In e (b_entries x) -> In (b_sig x, e) (ids (finalize all))).
+  { intros e He. rewrite <- Sy. apply in_ids; [exact Hy|now rewrite Ey]. }
+  split; [|rewrite <- Ey; exact Hso].
+  destruct (b_entries x) as [|e0 es0] eqn:Ex; [congruence|]. rewrite <- Ex in *.
+  destruct (Hhdr _ (Hidx e0 ltac:(rewrite Ex; now left))) as (Hna & Hok & _). cbn [fst] in Hna, Hok.
+  split; [now apply Hkind|]. split; [exact Hna|].
+  assert (Hvx : Arith.validate_batch A (fb x) = Arith.ROk).
+  { destruct (Hfit y Hy) as (F1 & F2). apply pairs_valid.
+    - apply Forall_forall. intros p Hp. unfold ids_of in Hp. apply in_map_iff in Hp as (e & <- & He). now apply Hpok, Hidx.
+    - exact Hxne.
+    - rewrite <- Ey. exact Hso.
+    - rewrite <- Ey. exact F1.
+    - rewrite <- Ey. exact F2. }
+  assert (Hcx : category_ok x = true).
+  { rewrite forallb_forall in Hcok. specialize (Hcok y Hy). unfold category_ok in *. now rewrite <- Ey, <- Ay. }
+  destruct (create_std_spec A T HA hd sp x Hok Hxne) as (b' & Hc & He & Hctl & Hsk); [|exact Hvx|exact Hcx|].
+  - unfold traces_prefixed. apply Forall_forall. intros e He. now destruct (Hhdr _ (Hidx e He)) as (_ & _ & Ht).
+  - exists b'. split; [exact Hc|]. split; [exact Hctl|]. split; [exact He|]. split; [now rewrite Hsk|].
+    now rewrite (is_category_std_ok x Hxne).
+Qed.
+
+(* FlattenBatches on a valid file of standard batches that satisfies the category rule: no batch
+   is lost in AddToFile, File.Create succeeds, none of the three ErrFlattenChanged... checks
+   fires; the new file control carries the original figures.  The only error return left is
+   FileControl.Validate of the new control (its conditions on hash and widths, Arith.validate_fctl) *)
+Theorem flatten_succeeds inf inp r :
+  std_file inp -> inp <> [] -> i_hdr_ok inf = true ->
+  kinds_consistent inp -> Forall traces_nodup inp ->
+  Forall (fun b => Arith.validate_batch A (fb b) = Arith.ROk) inp ->
+  Forall hdr_pair (ids inp) ->
+  i_count inf = sum_ids cnt_e inp -> i_debit inf = sum_ids (db_e T sp) inp -> i_credit inf = sum_ids (cr_e T sp) inp ->
+  cat_rule inp ->
+  i_debit inf <= Arith.t_file_limit A -> i_credit inf <= Arith.t_file_limit A ->
+  Arith.t_file_limit A <= Arith.t_batch_limit A ->
+  flatten_full_spec A T TT hd sp ip ap inf inp r ->
+  (fst r = FOk \/ (fst r = FErrValidate /\ file_ctl_ok A (snd r) = false))
+  /\ af_iat (snd r) = []
+  /\ Offsets.fc_count (af_ctl (snd r)) = i_count inf
+  /\ Offsets.fc_debit (af_ctl (snd r)) = i_debit inf
+  /\ Offsets.fc_credit (af_ctl (snd r)) = i_credit inf.
+Proof.
+  intros Hstd Hne Hh Hk Hnd Hv Hhp E1 E2 E3 Hcat L1 L2 L3 (order & all & Hadm & Hall & ->).
+  destruct (consolidated_created inf inp order all Hstd Hk Hnd Hv Hhp E2 E3 Hcat L1 L2 L3 Hadm Hall) as (Hcv & Pall).
+  assert (Hcr : Forall (created A T hd sp) (pre all)) by (eapply Forall_impl; [|exact Hcv]; intros x [H _]; exact H).
+  unfold std_file in Hstd.
   assert (Hall_ne : all <> []).
   { intros ->. destruct inp as [|b0 inp']; [congruence|]. inversion Hstd as [|? ? (_ & Hb0 & _) _]; subst.
     destruct (b_entries b0) as [|e0 q] eqn:E; [congruence|].
@@ -419,6 +483,27 @@ Proof.
   - rewrite E2. symmetry. now apply sum_ids_perm.
   - rewrite E3. symmetry. now apply sum_ids_perm.
   - repeat split; assumption.
+Qed.
+
+(* ... and the result is VALID: every batch of the new file is the result of C05's Batch.build on a
+   consolidated batch, accepted by the validator model (control = tabulation, ascending trace
+   numbers carrying the ODFI, admissible entries, isCategory) *)
+Theorem flatten_valid inf inp r :
+  std_file inp -> i_hdr_ok inf = true ->
+  kinds_consistent inp -> Forall traces_nodup inp ->
+  Forall (fun b => Arith.validate_batch A (fb b) = Arith.ROk) inp ->
+  Forall hdr_pair (ids inp) ->
+  i_debit inf = sum_ids (db_e T sp) inp -> i_credit inf = sum_ids (cr_e T sp) inp ->
+  cat_rule inp ->
+  i_debit inf <= Arith.t_file_limit A -> i_credit inf <= Arith.t_file_limit A ->
+  Arith.t_file_limit A <= Arith.t_batch_limit A ->
+  flatten_full_spec A T TT hd sp ip ap inf inp r ->
+  exists all, r = finish A T TT hd sp ip ap inf all /\ flatten_spec inp (finalize all) /\
+    Forall (fun x => created A T hd sp x /\ StronglySorted trace_lt (b_entries x)) (pre all).
+Proof.
+  intros Hstd Hh Hk Hnd Hv Hhp E2 E3 Hcat L1 L2 L3 (order & all & Hadm & Hall & ->).
+  exists all. split; [reflexivity|]. split; [exists order, all; split; [exact Hadm|split; [exact Hall|reflexivity]]|].
+  now destruct (consolidated_created inf inp order all Hstd Hk Hnd Hv Hhp E2 E3 Hcat L1 L2 L3 Hadm Hall).
 Qed.
 
 End Succeeds.
